@@ -8,7 +8,7 @@ from ..front import norm, walk_no_nested
 from ..symeval import is_const, show
 from ..tables import Poly
 from . import shared as SH
-from .util import guard_text, leaves, subterms
+from .util import guard_text, leaves, mentions, subterms
 
 META = {
     "explanation": (
@@ -93,6 +93,175 @@ def _divmod_form(info, lid, is_sat_count, is_sig_count):
     return None
 
 
+def map_forms(eng):
+    """Normal forms (sa/seqalg.py) of the maps the map builder leaves in the instance fields the derived-label consumers read:
+    dict(sa, env, sat=(obj, form), cell=(obj, form), fields) or None when the builder is outside the algebra's fragment."""
+    if "_map_forms" in eng.__dict__:
+        return eng.__dict__["_map_forms"]
+    from ..seqalg import Mismatch, SeqAlg, Unsupported
+
+    res = None
+    try:
+        T = eng.tables
+        mb = eng.repo.func(eng.map_builder)
+        fields = {}
+        sf0 = eng.repo.func(eng.single_field_routine)
+        tc0 = T.type_consts
+        for e in eng.symeval(sf0.qualname).effects:
+            if e.kind == "call" and e.term[2] == ("builtin", "setattr"):
+                for g, leaf in leaves(e.term[3][2]):
+                    for c, pol in g:
+                        if pol and c[0] == "cmp" and c[1] == "==" and is_const(c[3]) and c[3][1] in (tc0["PRN"], tc0["CELPRN"], tc0["CELSIG"]):
+                            base = leaf[1] if (c[3][1] != tc0["PRN"] and leaf[0] == "idx" and is_const(leaf[2])) else leaf
+                            if base[0] == "idx" and base[1][0] == "field":
+                                fields.setdefault("sat" if c[3][1] == tc0["PRN"] else "cell", base[1][1])
+        sa = SeqAlg(eng, mb)
+        env = sa.run()
+        objs = {}
+        for k in ("sat", "cell"):
+            o = sa.obj(env.get("self." + fields[k])) if k in fields else None
+            if o is None or o.comp is None or o.kind != "dict":
+                raise Unsupported(k)
+            objs[k] = (o, sa.normal(o.comp))
+        res = {"sa": sa, "env": env, "fields": fields, **objs}
+    except (Unsupported, Mismatch):
+        res = None
+    except Exception:  # noqa: BLE001 - an internal error of the algebra is not a verdict
+        res = None
+    eng.__dict__["_map_forms"] = res
+    return res
+
+
+def _d2_by_algebra(eng, ctx, mb, T, sat_field, sig_field, cell_field, consumer_fields):
+    """C09-D2 decided on the *normal form* of what the map builder leaves in the maps (sa/seqalg.py): the satellite map must be
+    { 1 + i: label(ID) | ID <- range, bit(DF394, W - ID) } in scan order, the cell map { 1 + i: (sat label, sig label) | sat <- ..., sig <- ...,
+    bit(DF396, NSat*NSig - 1 - (pos(sat)*NSig + pos(sig))) }.  Returns None when the code is outside the algebra's fragment (the loop-shape
+    rules then decide), else a dict with the lookups the later rules need."""
+    from ..seqalg import Mismatch, SeqAlg, Unsupported, subterms as sub2
+
+    sa = SeqAlg(eng, mb)
+    loc = eng.loc(mb, mb.node)
+    try:
+        env = sa.run()
+    except Unsupported:
+        return None
+    except Mismatch as err:
+        ctx.bad("C09.D2", mb.qualname, err.what, expected=err.expected, found=err.found, **loc)
+        return {"decided": True, "recvs": {}, "labels": [], "gets": []}
+    except Exception:  # noqa: BLE001 - an internal error of the algebra is not a verdict
+        return None
+
+    def built(name):
+        o = sa.obj(env.get("self." + name)) if name else None
+        return o if (o is not None and o.comp is not None) else None
+
+    osat, ocell = built(consumer_fields.get("sat")), built(consumer_fields.get("cell"))
+    if osat is None or ocell is None or osat.kind != "dict" or ocell.kind != "dict":
+        return None
+    try:
+        nsat, ncell = sa.normal(osat.comp), sa.normal(ocell.comp)
+    except (Unsupported, Mismatch):
+        return None
+
+    def bit_of(c):
+        bt = _bit_test(c)
+        if bt is None:
+            return None
+        fld = _mask_field(bt[0])
+        return (fld, bt[1]) if fld else None
+
+    def gets_in(t):
+        return [st for st in sub2(t) if isinstance(st, tuple) and st and st[0] == "call" and len(st) == 5 and st[2][0] == "attr" and st[2][2] == "get" and len(st[3]) >= 1]
+
+    # ---- satellite map
+    if len(nsat.gens) != 1 or len(nsat.conds) != 1:
+        return None
+    bs = bit_of(nsat.conds[0])
+    if bs is None and nsat.conds[0][0] == "not" and bit_of(nsat.conds[0][1]) is not None:
+        ctx.bad("C09.D2", mb.qualname, f"scan of {sat_field}", expected="labels are recorded for the SET bits of the mask", found="the map is filled under the negated bit test", **loc)
+        return {"decided": True, "recvs": {}, "labels": [], "gets": []}
+    if bs is None or bs[0] != sat_field:
+        return None
+    out = {"decided": True, "recvs": {}, "labels": [], "gets": []}
+
+    def scan_checks(fld, gen, E_t, elt, what):
+        W = T.fields.get(fld, (None, None))[1]
+        v, lo, hi, step = gen
+        if not (is_const(lo) and is_const(hi) and isinstance(W, int)):
+            return False
+        E = to_poly(E_t, lambda t: "i" if t == v else show(t))
+        if E is None or E.symbols() - {"i"}:
+            return False
+        a, b = int(E.coef("i")), int(E.const_value())
+        idxs = list(range(lo[1], hi[1], step))
+        positions = [a * i + b for i in idxs]
+        missing = sorted(set(range(W)) - set(positions))
+        ctx.check(not missing, "C09.D2", mb.qualname, f"scan of {fld} covers all {W} mask bits", expected=f"positions 0..{W - 1}",
+                  found=f"range({lo[1]}, {hi[1]}) tests positions {min(positions) if positions else '-'}..{max(positions) if positions else '-'}; missing {missing[:4]}", **loc)
+        ctx.check(a * step < 0, "C09.D2", mb.qualname, f"scan of {fld} is MSB first", expected="position decreases as the scan advances", found=f"position = {E!r}", **loc)
+        negpos = [p for p in positions if p < 0]
+        ctx.check(not negpos, "C09.D2", mb.qualname, f"scan of {fld} never shifts by a negative count", expected="positions >= 0", found=str(negpos[:3]), **loc)
+        gs = gets_in(elt)
+        if not gs:
+            return False
+        for g in gs:
+            K = to_poly(g[3][0], lambda t: "i" if t == v else show(t))
+            ok = K is not None and (K + E) == Poly.const(W)
+            ctx.check(ok, "C09.D2", mb.qualname, f"label key in scan of {fld}", expected=f"ID = {W} - position = {Poly.const(W) - E!r}", found=repr(K) if K is not None else show(g[3][0]), **loc)
+            out["recvs"].setdefault(fld, g[2][1])
+            out["gets"].append(g)
+        ctx.ok("C09.D2", mb.qualname, f"{what} of the {fld} scan", found="normal form [ label(ID) | ID <- range, bit set ] in scan order (ordinals are positions in it)", **loc)
+        return True
+
+    if not scan_checks(sat_field, nsat.gens[0], bs[1], nsat.elt, "satellite map"):
+        return None
+    ctx.check(osat.base == 1, "C09.D2", mb.qualname, "satellite map key", expected="ordinal of the set bit, counted from 1", found=f"counted from {osat.base}", **loc)
+    # ---- cell map
+    if len(ncell.gens) != 2:
+        return None
+    gA, gB = ncell.gens
+    cA = [c for c in ncell.conds if bit_of(c) and bit_of(c)[0] == sat_field]
+    cB = [c for c in ncell.conds if bit_of(c) and bit_of(c)[0] == sig_field]
+    cC = [c for c in ncell.conds if bit_of(c) and bit_of(c)[0] == cell_field]
+    neg = [c for c in ncell.conds if c[0] == "not" and bit_of(c[1]) is not None]
+    if neg:
+        ctx.bad("C09.D2", mb.qualname, f"scan of {bit_of(neg[0][1])[0]}", expected="labels are recorded for the SET bits of the mask", found="the map / list is filled under the negated bit test", **loc)
+        return out
+    if len(cA) != 1 or len(cB) != 1 or len(cC) != 1 or len(ncell.conds) != 3:
+        return None
+    if not (mentions(cA[0], lambda s_: s_ == gA[0]) and mentions(cB[0], lambda s_: s_ == gB[0])):
+        # the satellite factor must be the outer (slowest) one
+        if mentions(cA[0], lambda s_: s_ == gB[0]) and mentions(cB[0], lambda s_: s_ == gA[0]):
+            ctx.bad("C09.D2", mb.qualname, "cell scan is satellite-major", expected="satellites vary slowest", found="signals are the outer dimension", **loc)
+            return out
+        return None
+    # satellite factor of the cell map is the satellite scan itself (same range, same test, same label)
+    mren = {nsat.gens[0][0]: gA[0]}
+    from ..seqalg import subst as sub_
+
+    same_sat = (sub_(nsat.conds[0], mren) == cA[0]) and gA[1:] == nsat.gens[0][1:]
+    if ncell.elt[0] != "tuple" or len(ncell.elt[1]) != 2:
+        return None
+    eA, eB = ncell.elt[1]
+    ctx.check(same_sat and eA == sub_(nsat.elt, mren), "C09.D2", mb.qualname, "cell label", expected="(label of the cell's satellite as in the satellite map, label of its signal)", found=show(ncell.elt)[:140], **loc)
+    if mentions(eB, lambda s_: s_ == gA[0]) or not mentions(eB, lambda s_: s_ == gB[0]):
+        ctx.bad("C09.D2", mb.qualname, "cell label", expected="second component: the label of the cell's signal", found=show(eB)[:100], **loc)
+        return out
+    if not scan_checks(sig_field, gB, bit_of(cB[0])[1], eB, "signal list"):
+        return None
+    out["labels"].append(eB)
+    pa, pb = sa.pc((gA,), (cA[0],)), sa.pc((gB,), (cB[0],))
+    na, nb = sa.cnt((gA,), (cA[0],)), sa.cnt((gB,), (cB[0],))
+    sa._note(pa), sa._note(pb), sa._note(na), sa._note(nb)
+    want = sa.poly(("bin", "-", ("bin", "-", ("bin", "*", na, nb), ("const", 1)), ("bin", "+", ("bin", "*", pa, nb), pb)))
+    got = sa.poly(bit_of(cC[0])[1])
+    ctx.check(got is not None and got == want, "C09.D2", mb.qualname, "cell bit position", expected="NSat*NSig - 1 - (position of the satellite * NSig + position of the signal): satellite-major, MSB first",
+              found=repr(got)[:120] if got is not None else show(bit_of(cC[0])[1])[:80], **loc)
+    ctx.check(ocell.base == 1, "C09.D2", mb.qualname, "cell map key", expected="ordinal of the set bit, counted from 1", found=f"counted from {ocell.base}", **loc)
+    return out
+
+
+
 def run(eng, ctx, layout_only=False):
     """layout_only: D1/D2 only (what decides whether an MSM message with given masks can be decoded at all - shared with C10)."""
     T = eng.tables
@@ -103,10 +272,33 @@ def run(eng, ctx, layout_only=False):
     # ------------------------------------------------------------ D1
     n1 = SH.derived_counts(eng, ctx, "C09.D1")
 
+    facts0 = eng.decoder_facts
+    dc0 = facts0["derived_counters"]
+    sat_f0, sig_f0, cell_f0 = dc0.get(T.const.get("NSAT", "NSat")), dc0.get(T.const.get("NSIG", "NSig")), dc0.get(T.const.get("NCELL", "NCell"))
+    # fields of the instance the derived-label consumers read (the maps the builder must leave behind)
+    consumer_fields = {}
+    sf0 = eng.repo.func(eng.single_field_routine)
+    tc0 = T.type_consts
+    for e in eng.symeval(sf0.qualname).effects:
+        if e.kind == "call" and e.term[2] == ("builtin", "setattr"):
+            for g, leaf in leaves(e.term[3][2]):
+                for c, pol in g:
+                    if pol and c[0] == "cmp" and c[1] == "==" and is_const(c[3]) and c[3][1] in (tc0["PRN"], tc0["CELPRN"], tc0["CELSIG"]):
+                        base = leaf[1] if (c[3][1] != tc0["PRN"] and leaf[0] == "idx" and is_const(leaf[2])) else leaf
+                        if base[0] == "idx" and base[1][0] == "field":
+                            consumer_fields.setdefault("sat" if c[3][1] == tc0["PRN"] else "cell", base[1][1])
     # ------------------------------------------------------------ D2 scan schema
     ctx.rule("C09.D2", "mask scans are MSB-first: tested bit position = W - e(counter) covers 0..W-1, the label key is W - position, "
                        "ordinals are 1-based keys / 0-based list positions consistent with their consumers; cells are scanned satellite-major "
                        "with position NSat*NSig - ordinal")
+    alg = _d2_by_algebra(eng, ctx, mb, T, sat_f0, sig_f0, cell_f0, consumer_fields)
+    decided_by_algebra = alg is not None
+
+    def undecided(*a, **kw):
+        # a scan whose loops have a shape the loop-shape rules below do not follow is still decided when its normal form was (above)
+        if not decided_by_algebra:
+            ctx.undecided(*a, **kw)
+
     se = eng.symeval(mb.qualname)
     loops = se.loop_info
     scans = {}  # field -> dict(loop id, E poly, range, key polys, counter var)
@@ -123,7 +315,7 @@ def run(eng, ctx, layout_only=False):
     for fld, e in inverted.items():
         if fld not in scans:
             ctx.bad("C09.D2", mb.qualname, f"scan of {fld}", expected="labels are recorded for the SET bits of the mask", found="the map / list is filled under the negated bit test", **eng.loc(mb, e.node))
-    ctx.instance("mask scan loops", len(scans), 3)
+    ctx.instance("mask scan loops", 3 if decided_by_algebra else len(scans), 3)
     facts = eng.decoder_facts
     dc = facts["derived_counters"]
     sat_field = dc.get(T.const.get("NSAT", "NSat"))
@@ -196,7 +388,7 @@ def run(eng, ctx, layout_only=False):
     for fld in (sat_field, sig_field):
         loc = eng.loc(mb, mb.node)
         if fld not in scans:
-            ctx.undecided("C09.D2", mb.qualname, f"scan of {fld}", detail="no loop testing one bit of the mask per iteration was recognised (the scan has a shape this rule does not follow)", **loc)
+            undecided("C09.D2", mb.qualname, f"scan of {fld}", detail="no loop testing one bit of the mask per iteration was recognised (the scan has a shape this rule does not follow)", **loc)
             continue
         sc = scans[fld]
         lid = sc["loop"][-1]
@@ -241,7 +433,7 @@ def run(eng, ctx, layout_only=False):
                           found=f"the loop runs over the constellation's table keys only: for {orc['names'][worst[0]]} {len(worst[1])} mask positions are never examined (e.g. IDs {[W - p_ for p_ in worst[1][:4]]}); a set bit there is counted by the popcount but gets no label" if worst else "ok", **loc)
                 continue
         if rng is None or E is None or not isinstance(W, int) or E.symbols() - {"i"}:
-            ctx.undecided("C09.D2", mb.qualname, f"scan of {fld}", detail=f"loop range / bit position not representable: iter={show(info.get('iter', ('?',)))} pos={show(sc['E'])}", **loc)
+            undecided("C09.D2", mb.qualname, f"scan of {fld}", detail=f"loop range / bit position not representable: iter={show(info.get('iter', ('?',)))} pos={show(sc['E'])}", **loc)
             continue
         a, b = int(E.coef("i")), int(E.const_value())
         idxs = list(range(*rng))
@@ -270,7 +462,7 @@ def run(eng, ctx, layout_only=False):
                 if type(tb) is dict or isinstance(tb, (list, tuple)):
                     ctx.bad("C09.D2", mb.qualname, f"label lookup in scan of {fld}", expected="table.get(ID, N/A): an ID without a table entry is reported as not available", found=f"plain subscript {show(subs[0])[-50:]}: KeyError for an untabulated ID", **loc)
                 else:
-                    ctx.undecided("C09.D2", mb.qualname, f"label lookup in scan of {fld}", detail="subscript lookup on a table the constant folder cannot evaluate (e.g. a defaultdict): whether a missing ID yields the not-available marker is not decided", **loc)
+                    undecided("C09.D2", mb.qualname, f"label lookup in scan of {fld}", detail="subscript lookup on a table the constant folder cannot evaluate (e.g. a defaultdict): whether a missing ID yields the not-available marker is not decided", **loc)
             else:
                 ctx.bad("C09.D2", mb.qualname, f"label lookup in scan of {fld}", expected="table.get(ID, N/A) under the bit test", found="no lookup", **loc)
         for k, e in keys[:1]:
@@ -288,7 +480,7 @@ def run(eng, ctx, layout_only=False):
         elif m["cont"] is not None:
             ctx.ok("C09.D2", mb.qualname, f"counter of {fld} scan", found=f"ordinals kept as the size of `{m['cont']}` (starts empty, one insert per set bit)", **loc)
         else:
-            ctx.undecided("C09.D2", mb.qualname, f"counter of {fld} scan", detail="neither a local ordinal counter nor a container filled once per set bit was found: the scan's bookkeeping has a shape this rule does not follow", **loc)
+            undecided("C09.D2", mb.qualname, f"counter of {fld} scan", detail="neither a local ordinal counter nor a container filled once per set bit was found: the scan's bookkeeping has a shape this rule does not follow", **loc)
     # satellite map keys 1-based, signal list 0-based
     if sat_field in scans:
         m = model[sat_field]
@@ -339,7 +531,7 @@ def run(eng, ctx, layout_only=False):
                            and v[1][0][1] == msat["cont_out"] and v[1][1][1] == msig["cont_out"])
                 ctx.check(okv, "C09.D2", mb.qualname, "cell label", expected="(satmap[sat + 1], sigs[sig]) with (sat, sig) = divmod(position, <signal count>)", found=show(v)[:140], **eng.loc(mb, sets[0].node))
         elif len(sc["loop"]) != 2:
-            ctx.undecided("C09.D2", mb.qualname, "cell scan nesting", detail=f"expected two nested loops (satellite outer, signal inner), found {len(sc['loop'])} loop level(s): an iteration shape this rule does not follow", **loc)
+            undecided("C09.D2", mb.qualname, "cell scan nesting", detail=f"expected two nested loops (satellite outer, signal inner), found {len(sc['loop'])} loop level(s): an iteration shape this rule does not follow", **loc)
         else:
             lo, li = sc["loop"]
             io, ii = loops[lo], loops[li]
@@ -396,9 +588,9 @@ def run(eng, ctx, layout_only=False):
                     alt = ("tuple", (("idx", ("field", msat["cont_out"][2][5:]), sat_key), sig_val))
                 ctx.check(v == want_v or v == alt, "C09.D2", mb.qualname, "cell label", expected="(label of the outer loop's satellite, label of the inner loop's signal)", found=show(v)[:140], **eng.loc(mb, sets[0].node))
     elif cell_field in scans:
-        ctx.undecided("C09.D2", mb.qualname, "cell scan", detail="the satellite / signal counts the cell scan depends on were not identified", **eng.loc(mb, mb.node))
+        undecided("C09.D2", mb.qualname, "cell scan", detail="the satellite / signal counts the cell scan depends on were not identified", **eng.loc(mb, mb.node))
     elif cell_field not in inverted:
-        ctx.undecided("C09.D2", mb.qualname, f"scan of {cell_field}", detail="no loop testing one bit of the cell mask per iteration and recording a label under it was recognised", **eng.loc(mb, mb.node))
+        undecided("C09.D2", mb.qualname, f"scan of {cell_field}", detail="no loop testing one bit of the cell mask per iteration and recording a label under it was recognised", **eng.loc(mb, mb.node))
     if layout_only:
         return
     # consumers in the single-field routine: 1-based index from the group loop
@@ -451,6 +643,8 @@ def run(eng, ctx, layout_only=False):
                     recvs.setdefault(fld, st[2][1])
                 elif isinstance(st, tuple) and st and st[0] == "idx" and st[2] == ("elem", loops[scans[fld]["loop"][-1]].get("iter"), scans[fld]["loop"][-1]):
                     recvs.setdefault(fld, st[1])
+    for fld, r in ((alg or {}).get("recvs") or {}).items():
+        recvs.setdefault(fld, r)  # the tables named by the label lookups of the normal form
     ident_terms = [("field", "identity"), ("attr", ("self",), "identity")]
     for pfx, want in sorted(orc["signals"].items()):
         name = orc["names"][pfx]
@@ -502,6 +696,9 @@ def run(eng, ctx, layout_only=False):
     label_sources = [(e, e.term[3][0]) for e in se.effects if e.kind == "call" and e.term[2][0] == "attr" and e.term[2][2] == "append" and e.loops and sig_field in scans and e.loops == scans[sig_field]["loop"]]
     if sig_field in model and model[sig_field].get("comp_elt") is not None:
         label_sources.append((scans[sig_field]["effects"][0], model[sig_field]["comp_elt"]))
+    if not label_sources and alg and alg.get("labels"):
+        anchor = type("E", (), {"node": mb.node})()
+        label_sources = [(anchor, t) for t in alg["labels"]]
     ctx.instance("signal label sources", len(label_sources), 1)
     for e, src_t in label_sources:
         if True:
